@@ -34,7 +34,7 @@ def rows(name, lst, state, typ, unit):
 
 
 def _long_logs(alpha):
-    """long logs (17, 40 and 64 entries): every word of <= 4 states repeated periodically, and runs of growing length"""
+    """long logs (17, 40 and 64 entries): every word of <= 4 states repeated periodically, and runs of growing length; very long logs of 300-1500 entries"""
     for L in (17, 40, 64):
         for p in range(1, 5):
             for word in itertools.product(alpha, repeat=p):
@@ -47,6 +47,17 @@ def _long_logs(alpha):
             k += 1
             run += 1
         yield seq[:L]
+    # very long logs (300, 777 and 1500 entries): a head of every word of <= 2 states, then one state to the end; a single state throughout; a change in the very last entry
+    for L in (300, 777, 1500):
+        for a in alpha:
+            yield [a] * L
+            for b in alpha:
+                if b == a:
+                    continue
+                yield [a] * (L - 1) + [b]
+                for head in (1, 17, 100, 255, 256, 257, L // 2):
+                    yield [a] * head + [b] * (L - head)
+                    yield ([a, b] * head)[:head] + [a] * (L - head)
 
 
 def work_rle(chunk):
